@@ -1,10 +1,14 @@
-/- C04 driver: op lines in, observable lines out (same format as props/C04/harness.cpp).
-   After every op: isEnabled() of every event and the field-wise disposition of the four signals. -/
+/- C04 driver: trace acceptor.  Input per case: op lines, then the implementation's output lines prefixed "T ",
+   then "end".  Every op is run on the model of the REPAIRED code; the expected line (isEnabled() of every event,
+   field-wise disposition of the six signals, handler invocations per raise, callbacks per pass in call order) must
+   equal the implementation's line.  The only thing taken from the implementation is the `ord=` field of a pass
+   line: the order in which its std::set<SignalSubscribuer*> walks the events (the model's oracle).
+   Prints `ok …` or `reject …` per case. -/
 import TboxModel.Util
 import TboxModel.C04.Model
 open Tbox.Util Tbox.C04
 
-def nSig : Nat := 4
+def nSig : Nat := 6
 def nLoop : Nat := 3
 
 def showDisp (d : Disp) : String :=
@@ -39,9 +43,30 @@ def parseKind (w : String) : Option (Kind × Bool) :=
   | ['a', c] => (idx? (String.ofList [c]) 3).map fun h => (.handler h, true)
   | _ => none
 
-def parseOp (s : State) (ws : List String) : Option Op :=
+def parseAct (w : String) : Option Act :=
+  match w.toList with
+  | 'e' :: rest => (idx? (String.ofList rest) 64).map .enable
+  | 'd' :: rest => (idx? (String.ofList rest) 64).map .disable
+  | 'x' :: rest => (idx? (String.ofList rest) 64).map .destroy
+  | _ => none
+
+def parseScript (w : String) (self : Nat) : Option (List Act) :=
+  if w == "-" then some [] else
+  (w.splitOn ",").mapM fun item => do
+    let a ← parseAct item
+    if a == .destroy self then none else some a
+
+/-- "-" or "e3,e0,e1" -/
+def parseOrd (w : String) : Option (List Nat) :=
+  if w == "-" then some [] else
+  (w.splitOn ",").mapM fun item =>
+    match item.toList with
+    | 'e' :: rest => (String.ofList rest).toNat?
+    | _ => none
+
+def parseOp (s : State) (ord : List Nat) (ws : List String) : Option Op :=
   match ws with
-  | ["new", l] => do pure (.newEv (← idx? l nLoop))
+  | ["new", l, sc] => do pure (.newEv (← idx? l nLoop) (← parseScript sc s.nEv))
   | ["init", e, sg, m] => do
       let e ← idx? e s.nEv
       let sg ← parseSigs sg
@@ -54,31 +79,15 @@ def parseOp (s : State) (ws : List String) : Option Op :=
       let (k, si) ← parseKind k
       pure (.setDisp g { kind := k, siginfo := si, flags := (← idx? f 4), mask := (← idx? m 16) })
   | ["raise", g] => do pure (.raise (← idx? g nSig))
-  | ["pass", l] => do pure (.pass (← idx? l nLoop))
+  | ["pass", l] => do pure (.pass (← idx? l nLoop) ord)
   | _ => none
-
-/-- canonical form of the callbacks of one pass: split into dispatch groups (a new group starts when the
-signal changes or an event repeats), sort each group by event id -/
-def groupCbs (cbs : List Cb) : List (Nat × List Cb) :=
-  let rec go (acc : List (Nat × List Cb)) (cur : Option (Nat × List Cb)) : List Cb → List (Nat × List Cb)
-    | [] => (match cur with | some c => c :: acc | none => acc).reverse
-    | c :: rest =>
-      match cur with
-      | none => go acc (some (c.sig, [c])) rest
-      | some (g, l) =>
-        if g == c.sig && !(l.any fun x => x.ev == c.ev) then go acc (some (g, l ++ [c])) rest
-        else go ((g, l) :: acc) (some (c.sig, [c])) rest
-  go [] none cbs
-
-def insertCb (c : Cb) : List Cb → List Cb
-  | [] => [c]
-  | x :: xs => if c.ev ≤ x.ev then c :: x :: xs else x :: insertCb c xs
 
 def showCbs (cbs : List Cb) : String :=
   if cbs.isEmpty then "-" else
-  ";".intercalate ((groupCbs cbs).map fun (g, l) =>
-    toString g ++ ":" ++ ",".intercalate ((l.foldr insertCb []).map fun c =>
-      "e" ++ toString c.ev ++ (if c.enabledInCb then "+" else "-")))
+  ",".intercalate (cbs.map fun c => toString c.sig ++ ":e" ++ toString c.ev ++ (if c.enabledInCb then "+" else "-"))
+
+def showOrd (ord : List Nat) : String :=
+  if ord.isEmpty then "-" else ",".intercalate (ord.map fun e => "e" ++ toString e)
 
 def showCalls (cs : List (Nat × Nat)) : String :=
   if cs.isEmpty then "-" else ",".intercalate (cs.map fun (h, g) => toString h ++ ":" ++ toString g)
@@ -92,7 +101,8 @@ def tagsOf (s s' : State) (op : Op) : List String :=
   match op with
   | .enable e =>
       let v := s.evs e
-      dc ++ (if !v.alive then ["en-dead"] else if !v.inited then ["en-uninited"] else if v.enabled then ["en-again"] else
+      dc ++ (if !v.alive then ["en-dead"] else if !v.inited then ["en-uninited"] else if v.enabled then ["en-again"]
+        else if !(enable repaired s e).2 then [if (subscribeAllF s v.loop e v.sigs).2.1.isEmpty then "en-fail-first" else "en-fail-rollback"] else
         (if v.sigs.length > 1 then ["en-multi"] else ["en"]) ++
         (if v.sigs.any fun g => (fdsOf s g).length ≥ 1 && !(fdsOf s g).contains v.loop then ["join-ctx"] else []) ++
         (if v.sigs.any fun g => !(subsOf s v.loop g).isEmpty then ["join-loop"] else []))
@@ -106,43 +116,96 @@ def tagsOf (s s' : State) (op : Op) : List String :=
       | .dfl => ["raise-dfl"] | .ign => ["raise-ign"] | .handler _ => ["raise-user"]
       | .tbox => [match (ctxOf s g).old.kind with | .handler _ => "raise-chain" | _ => "raise-nochain",
                   "fan" ++ toString (fdsOf s g).length]
-  | .pass l =>
+  | .pass l _ =>
       let n := s'.cbs.length - s.cbs.length
+      let live := ((s.pipe l).foldl (fun acc g => acc + (subsOf s l g).length) 0)
+      let scripted := (s'.cbs.take n).any fun c => !(s.evs c.ev).script.isEmpty
       dc ++ (if (s.pipe l).isEmpty then ["pass-empty"] else
+        (if scripted then ["cb-script"] else []) ++
+        (if n < live then ["cb-skipped-or-lost"] else []) ++ (if n > live then ["cb-extra"] else []) ++
         (if (s.pipe l).length ≥ 2 then ["pass-items>1"] else []) ++
         (if n = 0 then ["pass-stale"] else if n = 1 then ["pass-cb1"] else ["pass-cbN"]) ++
         (if (s'.cbs.take n).any (·.oneshot) then ["oneshot-fired"] else []) ++
         (if (s.pipe l).length > 10 then ["pass-chunk>10"] else []))
-  | .setDisp g _ => if (s.os g).kind = .tbox then ["sa-refused"] else ["sa"]
-  | .init e _ _ => if (s.evs e).inited then ["reinit"] else ["init"]
-  | .newEv _ => []
+  | .setDisp g _ => if (s.os g).kind = .tbox then ["sa-refused"] else if !sigValid g then ["sa-einval"] else ["sa"]
+  | .init e _ _ => dc ++ (if (s.evs e).enabled then ["reinit-enabled"] else if (s.evs e).inited then ["reinit"] else ["init"])
+  | .newEv _ sc => if sc.isEmpty then [] else ["new-script"]
 
-def stepLine (s : State) (line : String) : State × List String :=
+/-- expected output of one op line on the model (B tag line first, if any) -/
+def stepLine (s : State) (line : String) (ord : List Nat) : State × List String :=
   let ws := words line
   match ws with
   | [] => (s, [])
-  | "case" :: _ => (init, [line.trimAscii.toString])
   | ["eng", e] => if e == "e" || e == "s" then (s, ["P eng"]) else (s, ["bad-op"])
   | _ =>
-    match parseOp s ws with
+    match parseOp s ord ws with
     | none => (s, ["bad-op"])
     | some op =>
-      -- `initialize` on an enabled event is outside the property's histories: refused by both sides
-      if !valid s op then (s, ["P refused " ++ showState s]) else
-      let s' := step s op
+      if !valid s op then (s, ["bad-op"]) else
+      let s' := step repaired s op
       let tags := tagsOf s s' op
       let b := if tags.isEmpty then [] else ["B " ++ " ".intercalate tags]
       let body := match op with
-        | .newEv _ => "ret=1"
-        | .init e sg o => "ret=" ++ (if (initEv s e sg o).2 then "1" else "0")
-        | .enable e => "ret=" ++ (if (enable s e).2 then "1" else "0")
+        | .newEv _ _ => "ret=1"
+        | .init e sg o => "ret=" ++ (if (initEv repaired s e sg o).2 then "1" else "0")
+        | .enable e => "ret=" ++ (if (enable repaired s e).2 then "1" else "0")
         | .disable e => "ret=" ++ (if (disable s e).2 then "1" else "0")
         | .destroy e => "ret=" ++ (if (destroy s e).2 then "1" else "0")
         | .setDisp g d => "ret=" ++ (if (setDisp s g d).2 then "1" else "0")
         | .raise g =>
             let o := match (raise s g).2 with | .killed => "killed" | .ignored => "ignored" | .handled => "handled"
             "raise " ++ o ++ " calls=" ++ showCalls ((s'.calls.take (s'.calls.length - s.calls.length)).reverse)
-        | .pass _ => "pass cbs=" ++ showCbs ((s'.cbs.take (s'.cbs.length - s.cbs.length)).reverse) ++ " thr=ok"
+        | .pass _ _ => "pass ord=" ++ showOrd ord ++ " cbs=" ++ showCbs ((s'.cbs.take (s'.cbs.length - s.cbs.length)).reverse) ++ " thr=ok"
       (s', b ++ ["P " ++ body ++ " " ++ showState s'])
 
-def main : IO Unit := runDriver init stepLine
+structure TAcc where
+  s : State := init
+  tl : List String := []
+  tags : List String := []
+  err : Option String := none
+  nops : Nat := 0
+
+/-- the oracle of a pass: the `ord=` field of the implementation's next line -/
+def ordOfImplLine (l : String) : List Nat :=
+  match (words l).find? (fun w => w.startsWith "ord=") with
+  | some w => (parseOrd (w.drop 4).toString).getD []
+  | none => []
+
+def stepOp (a : TAcc) (line : String) : TAcc :=
+  if a.err.isSome then a else
+  let a := { a with nops := a.nops + 1 }
+  let ord := match a.tl with | l :: _ => (ordOfImplLine l).eraseDups | [] => []
+  let (s', outs) := stepLine a.s line ord
+  let tags := (outs.filter (·.startsWith "B ")).flatMap fun l => words (l.drop 2).toString
+  let want := outs.filter (fun l => !l.startsWith "B ")
+  let rec cmp (want tl : List String) : Option String × List String :=
+    match want, tl with
+    | [], tl => (none, tl)
+    | w :: ws, l :: ls => if w == l then cmp ws ls else (some s!"op#{a.nops} [{line.trimAscii}]: impl=[{l}] model=[{w}]", ls)
+    | w :: _, [] => (some s!"op#{a.nops} [{line.trimAscii}]: impl=<missing> model=[{w}]", [])
+  let (err, rest) := cmp want a.tl
+  { a with s := s', tl := rest, tags := a.tags ++ tags, err := err }
+
+structure DS where
+  ops : Array String := #[]
+  tl : Array String := #[]
+
+def finish (d : DS) : List String :=
+  let a : TAcc := d.ops.foldl stepOp ({ tl := d.tl.toList } : TAcc)
+  let tagsLine := if a.tags.isEmpty then [] else ["B " ++ " ".intercalate a.tags]
+  match a.err with
+  | some e => tagsLine ++ ["reject " ++ e]
+  | none =>
+    match a.tl with
+    | [] => tagsLine ++ [s!"ok ops={a.nops} callbacks={a.s.cbs.length}"]
+    | l :: _ => tagsLine ++ ["reject unexpected extra implementation output: [" ++ l ++ "]"]
+
+def stepIn (d : DS) (line : String) : DS × List String :=
+  let t := line.trimAscii.toString
+  if t.isEmpty then (d, [])
+  else if t.startsWith "case " then ({}, [t])
+  else if t == "end" then ({}, finish d)
+  else if t.startsWith "T " then ({ d with tl := d.tl.push (t.drop 2).toString }, [])
+  else ({ d with ops := d.ops.push t }, [])
+
+def main : IO Unit := runDriver ({} : DS) stepIn
